@@ -19,8 +19,10 @@ def main():
     m_rej = c11.exec_map({"id": "map-reject-ok", "op": "map", "n": 3, "items": two, "seed": 0})
     r_ok = c11.exec_run({"id": "run-ok", "op": "run", "n": 3, "items": dict_nn, "seed": 5,
                          "run": {"shape": [3, 4, 2], "rank": 2, "init": "random", "outer": 2, "inner": 10, "data": "signed",
-                                 "fixed": [0], "via": "class"}})
-    evs = [m_ok, m_rej, r_ok]
+                                 "fixed": [0], "via": "class", "scale": -30, "dtype": "float32"}})
+    p_ok = c11.exec_prox({"id": "prox-ok", "op": "prox", "n": 3, "items": dict_nn, "seed": 7,
+                          "run": {"rows": 3, "cols": 2, "mode": 2, "data": "signed", "scale": -70, "dtype": "float64"}})
+    evs = [m_ok, m_rej, r_ok, p_ok]
 
     def mutate(ev, name, fn):
         e = copy.deepcopy(ev)
@@ -34,14 +36,18 @@ def main():
     mutate(m_rej, "map-reject-decomp-returned", lambda e: e["cp"].update(raised=False, exc=""))
     mutate(r_ok, "run-negative-entry", lambda e: e["factors"][2]["cols"][1].update(minsign=-1))
     mutate(r_ok, "run-unrequested-mode-negative-is-fine", lambda e: e["factors"][1]["cols"][0].update(minsign=-1))
-    mutate(r_ok, "run-fixed-requested-mode-negative-is-fine", lambda e: e["factors"][0]["cols"][0].update(minsign=-1))
+    mutate(r_ok, "run-fixed-mode-of-builtin-start-negative", lambda e: e["factors"][0]["cols"][0].update(minsign=-1))
+    mutate(r_ok, "run-fixed-mode-of-user-start-negative-is-fine",
+           lambda e: (e["run"].update(init="user"), e["factors"][0]["cols"][0].update(minsign=-1)))
+    mutate(r_ok, "run-float32-huge-scale-out-of-domain", lambda e: e["run"].update(scale=40))
     mutate(r_ok, "run-last-mode-fixed-out-of-domain", lambda e: e["run"].update(fixed=[2]))
     mutate(r_ok, "run-nan-factor", lambda e: e["factors"][2].update(finite=False))
     mutate(r_ok, "run-out-of-domain-inner-0", lambda e: e["run"].update(inner=0))
     mutate(r_ok, "run-column-dropped", lambda e: e["factors"][0]["cols"].pop())
+    mutate(p_ok, "prox-negative-entry", lambda e: e["factor"]["cols"][0].update(minsign=-1))
     rej = {rid: clause for rid, clause, _ in chk.validate("ConstraintsTrace", evs)}
     expect_ok = {"map-ok", "map-reject-ok", "run-ok", "run-unrequested-mode-negative-is-fine",
-                 "run-fixed-requested-mode-negative-is-fine"}
+                 "run-fixed-mode-of-user-start-negative-is-fine", "prox-ok"}
     bad = 0
     for e in evs:
         got = rej.get(e["id"], "ok")
